@@ -8,6 +8,10 @@ package main
 //   syntax-splice     a guaranteed syntax error spliced at every token boundary of valid multi-rule programs
 //   fault-injection   every kind of runtime fault x every evaluated syntactic position (matrix in the result file)
 //   fault-unevaluated the same faults at positions that are NOT evaluated: the run must be unaffected
+//   regex-site-sequence  one ~ / !~ site with a non-literal right operand evaluated with a SEQUENCE of patterns
+//                     (valid ... invalid / not a pattern ... valid): the fault is raised at the first faulty one
+//   call-shadowed-name a function's or builtin's name bound to something else (parameter, caller's parameter,
+//                     match binding, for-in variable, global) and called while that binding is in scope
 //
 // All compare class,out,line,col,src with the model and carry an
 // implementation-only oracle.
@@ -1655,4 +1659,319 @@ func init() {
 	register(Family{Name: "fault-output-through-binary", Prop: "C11",
 		Rule: "programs that print in BEGIN, per record and in END -- nothing, one line, text without a trailing newline, lines followed by a partial line, 70 KiB and 200 KiB of lines, and exactly 4096 / 65535 / 65536 / 65537 / 131072 bytes without any newline -- before the run is stopped by a runtime fault (division, invalid regex, unknown $-name as for-in variable) at a random record of a random value of a 1-3 value stream, by malformed or truncated JSON after 0-2 complete values, by a -r selector that fails for a later value or does not parse, by a fault in END or in BEGIN, and fault-free controls; each as a `run` request (in-process evaluator) and as a `cli` request (the real binary, stdout a pipe). Oracle: class / exit status and exactly the bytes printed before the fault (computed by the generator), the same bytes from the library and from the binary (group); both are also compared with the model.",
 		Gen:  c11GenFaultBinary})
+}
+
+// ---------------------------------------------------------------------------
+// family: regex-site-sequence
+//
+// ONE `~` / `!~` site whose right operand is not a literal -- a parameter, a for-in variable, an
+// array element, a variable, an object member, a match binding, a member of `$` -- evaluated several
+// times with a SEQUENCE of patterns: regex values and strings, valid ones first, then (mostly) one
+// that is invalid or not a pattern at all, then more valid ones. Each evaluation prints its result.
+// Oracle: Go's regexp on each pattern in turn: the results of the evaluations before the first
+// faulty one are printed (each computed with ITS pattern and subject), the run stops there with a
+// runtime error and prints nothing more; without a faulty one the run completes.
+
+type c11SiteEntry struct {
+	expr    string // the pattern as a jqawk expression
+	pat     string
+	subject string
+	fault   string // "" | invalid | nonpattern
+	jsonPat string // as a JSON value ("" = cannot come from a document)
+}
+
+var c11SiteValid = []string{"^a", "c$", "b+", "a.c", "[a-c]+", "zzz", "x|b", "(ab)", "^$", "b", "A", "a*", "^abc$", "[^a]", "ab?c", "\\d", "\\w+", "."}
+var c11SiteSubjects = []string{"abc", "xaby", "b(", "", "zzz 1", "ABC", "c", "a)c", "7"}
+var c11SiteNonPatterns = []string{"7", "null", "[1]", "{}", "true", "0"}
+
+func c11SiteEntryOf(r *rand.Rand, fault string, invalid []string) c11SiteEntry {
+	e := c11SiteEntry{subject: pick(r, c11SiteSubjects), fault: fault}
+	switch fault {
+	case "nonpattern":
+		e.expr = pick(r, c11SiteNonPatterns)
+		e.jsonPat = e.expr
+		return e
+	case "invalid":
+		e.pat = pick(r, invalid)
+	default:
+		e.pat = pick(r, c11SiteValid)
+	}
+	str, lit := c11PatLits(e.pat)
+	e.jsonPat = jsonString(e.pat)
+	if lit != "" && (str == "" || chance(r, 0.6)) {
+		e.expr = lit
+	} else {
+		e.expr = str
+	}
+	return e
+}
+
+func c11GenRegexSite(r *rand.Rand, tier string, emit func(Case)) {
+	var invalid []string
+	for _, p := range c11RegexPatterns {
+		if _, err := regexp.Compile(p); err != nil && strings.ToValidUTF8(p, "") == p && !strings.ContainsAny(p, "\"\n/") && !strings.HasSuffix(p, "\\") {
+			invalid = append(invalid, p)
+		}
+	}
+	carriers := []string{"parameter", "for-in variable", "array element", "variable", "object member", "match binding", "recursion", "condition", "per record", "member of $", "rule pattern", "nested call"}
+	n := tierN(tier, 1500, 20000)
+	for i := 0; i < n; i++ {
+		carrier := carriers[i%len(carriers)]
+		k := 2 + r.Intn(5)
+		// where the first faulty pattern sits: mostly after at least one valid one
+		f := -1
+		switch x := r.Intn(10); {
+		case x < 6:
+			f = 1 + r.Intn(k-1)
+		case x < 7:
+			f = 0
+		case x < 8:
+			f = k - 1
+		}
+		fromDoc := carrier == "member of $" || carrier == "rule pattern"
+		es := make([]c11SiteEntry, k)
+		for j := range es {
+			fault := ""
+			if j == f || j > f && f >= 0 && chance(r, 0.3) {
+				fault = "invalid"
+				if chance(r, 0.25) {
+					fault = "nonpattern"
+				}
+			}
+			es[j] = c11SiteEntryOf(r, fault, invalid)
+			if fromDoc && es[j].fault == "" && es[j].subject == "" && carrier == "rule pattern" {
+				es[j].subject = "abc"
+			}
+		}
+		op, neg := "~", false
+		if chance(r, 0.3) {
+			op, neg = "!~", true
+		}
+		pats, subs := make([]string, k), make([]string, k)
+		for j, e := range es {
+			pats[j], subs[j] = e.expr, jsonString(e.subject)
+		}
+		setup := fmt.Sprintf("pats = [%s]; subs = [%s]; n = %d", strings.Join(pats, ", "), strings.Join(subs, ", "), k)
+		var prog string
+		files := c11Input
+		line := func(j int, res bool) string { return fmt.Sprintf("%d %v\n", j, res) }
+		switch carrier {
+		case "parameter":
+			prog = "function hit(s, r) { return s " + op + " r }\nBEGIN { print \"start\"; " + setup + "\n for (p, i in pats) { print i, hit(subs[i], p) }\n print \"done\" }\nEND { print \"end\" }\n"
+		case "nested call":
+			prog = "function hit(s, r) { return inner(s, r) }\nfunction inner(a, b) { return a " + op + " b }\nBEGIN { print \"start\"; " + setup + "\n for (i = 0; i < n; i++) { print i, hit(subs[i], pats[i]) }\n print \"done\" }\nEND { print \"end\" }\n"
+		case "for-in variable":
+			prog = "BEGIN { print \"start\"; " + setup + "\n for (p, i in pats) { print i, subs[i] " + op + " p }\n print \"done\" }\nEND { print \"end\" }\n"
+		case "array element":
+			prog = "BEGIN { print \"start\"; " + setup + "\n for (i = 0; i < n; i++) { print i, subs[i] " + op + " pats[i] }\n print \"done\" }\nEND { print \"end\" }\n"
+		case "variable":
+			prog = "BEGIN { print \"start\"; " + setup + "\n i = 0\n while (i < n) { pv = pats[i]; print i, subs[i] " + op + " pv; i++ }\n print \"done\" }\nEND { print \"end\" }\n"
+		case "object member":
+			prog = "BEGIN { print \"start\"; " + setup + "; o = {}\n for (i = 0; i < n; i++) { o.p = pats[i]; print i, subs[i] " + op + " o.p }\n print \"done\" }\nEND { print \"end\" }\n"
+		case "match binding":
+			prog = "BEGIN { print \"start\"; " + setup + "\n for (i = 0; i < n; i++) { match (pats[i]) { q => { print i, subs[i] " + op + " q } }\n }\n print \"done\" }\nEND { print \"end\" }\n"
+		case "recursion":
+			prog = "function walk(i) { if (i >= n) return 0\n print i, subs[i] " + op + " pats[i]\n return walk(i + 1) }\nBEGIN { print \"start\"; " + setup + "\n walk(0)\n print \"done\" }\nEND { print \"end\" }\n"
+		case "condition":
+			prog = "BEGIN { print \"start\"; " + setup + "\n for (i = 0; i < n; i++) { if (subs[i] " + op + " pats[i]) print i, \"true\"; else print i, \"false\" }\n print \"done\" }\nEND { print \"end\" }\n"
+		case "per record":
+			recs := make([]string, k)
+			for j := range recs {
+				recs[j] = fmt.Sprintf(`{"i": %d, "s": %s}`, j, subs[j])
+			}
+			files = []File{{Name: "in.json", Data: []byte("[" + strings.Join(recs, ", ") + "]")}}
+			prog = "BEGIN { print \"start\"; " + setup + " }\n{ print $.i, $.s " + op + " pats[$.i] }\nEND { print \"done\"; print \"end\" }\n"
+		case "member of $", "rule pattern":
+			recs := make([]string, k)
+			for j, e := range es {
+				if e.jsonPat == "" {
+					e.jsonPat = jsonString(e.pat)
+				}
+				recs[j] = fmt.Sprintf(`{"i": %d, "s": %s, "p": %s}`, j, subs[j], e.jsonPat)
+			}
+			files = []File{{Name: "in.json", Data: []byte(strings.Join(recs, "\n"))}}
+			if carrier == "member of $" {
+				prog = "BEGIN { print \"start\" }\n{ print $.i, $.s " + op + " $.p }\nEND { print \"done\"; print \"end\" }\n"
+			} else {
+				prog = "BEGIN { print \"start\" }\n$.s " + op + " $.p { print $.i, \"true\" }\n!($.s " + op + " $.p) { print $.i, \"false\" }\nEND { print \"done\"; print \"end\" }\n"
+			}
+		}
+		want, wantClass := "start\n", "ok"
+		for j, e := range es {
+			if e.fault != "" {
+				wantClass = "runtime"
+				break
+			}
+			res := regexp.MustCompile(e.pat).MatchString(e.subject) != neg
+			want += line(j, res)
+		}
+		if wantClass == "ok" {
+			want += "done\nend\n"
+		}
+		var seq []string
+		for _, e := range es {
+			tag := "valid"
+			if e.fault != "" {
+				tag = e.fault
+			}
+			seq = append(seq, tag+" "+e.expr)
+		}
+		row := "no fault"
+		if f >= 0 {
+			row = fmt.Sprintf("first fault (%s) at evaluation %d", es[f].fault, min(f, 3))
+			if f >= 3 {
+				row += "+"
+			}
+		}
+		wc, wo := wantClass, want
+		emit(Case{Req: RunReq(prog, nil, files, false), Fields: c11Fields,
+			NonTrivial: func(i Resp) bool { return i["class"] == "runtime" || i["class"] == "ok" },
+			Meta:       metaProg(prog, "carrier", carrier, "operator", op, "patterns in order", strings.Join(seq, "  |  "), "input", string(files[0].Data), "row", row, "col", carrier),
+			Oracle: func(i Resp) string {
+				if i["class"] != wc || string(i.Bytes("out")) != wo {
+					return fmt.Sprintf("C11: one %s site, patterns in order [%s]: expected class %s and output %q (each result from its own pattern; stop at the first faulty one), got class %s and output %q", op, strings.Join(seq, " | "), wc, wo, i["class"], i.Bytes("out"))
+				}
+				return ""
+			}})
+	}
+}
+
+// ---------------------------------------------------------------------------
+// family: call-shadowed-name
+//
+// A name that is a function of the program (or a builtin) is bound, for a while, to something else
+// -- by a parameter, a parameter of a CALLER (scoping is dynamic), a match binding, a for-in item or
+// index variable, a parameter that is not passed, an assignment to the global -- and CALLED while
+// that binding is in scope. Bound to a number, string, null, array, object, boolean or regex the
+// call is a runtime error there; bound (match binding) to ANOTHER function or a builtin, that one is
+// called; before the binding and after its scope the original function is called.
+
+func c11GenCallShadowed(r *rand.Rand, tier string, emit func(Case)) {
+	names := []string{"f", "max", "length", "x", "num", "json", "printf"}
+	values := []struct{ expr, what string }{{"7", "number"}, {"\"s\"", "string"}, {"null", "null"}, {"[1]", "array"}, {"{a: 1}", "object"}, {"true", "boolean"}, {"/re/", "regex"}, {"0", "number"},
+		{"other", "function"}, {"num", "builtin"}, {"json", "builtin"}}
+	binders := []string{"parameter", "caller's parameter", "match binding", "for-in item", "for-in index", "parameter not passed", "global assignment", "second parameter", "parameter, call in a loop", "match binding in a function", "nested shadow"}
+	rounds := tierN(tier, 3, 12)
+	for round := 0; round < rounds; round++ {
+		for _, name := range names {
+			for _, binder := range binders {
+				for _, v := range values {
+					isFn := v.what == "function" || v.what == "builtin"
+					if isFn && !strings.HasPrefix(binder, "match binding") {
+						continue // a function value cannot be copied into a parameter / loop variable / global
+					}
+					if isFn && (name == "printf" || name == v.expr) {
+						continue
+					}
+					builtin := name == "num" || name == "json" || name == "printf"
+					arg := 2 + r.Intn(7)
+					// the call, what it prints when the name means the original, and when it means v
+					call := fmt.Sprintf("%s(%d)", name, arg)
+					orig := fmt.Sprint(arg + 1)
+					if builtin {
+						orig = fmt.Sprint(arg)
+					}
+					bound := ""
+					switch v.expr {
+					case "other":
+						bound = fmt.Sprint(arg * 10)
+					case "num", "json":
+						bound = fmt.Sprint(arg)
+					}
+					show := func(tag string) string { return "print \"" + tag + "\", " + call }
+					res := func(tag, val string) string { return tag + " " + val + "\n" }
+					if name == "printf" {
+						call = fmt.Sprintf("printf(\"%%v|\\n\", %d)", arg)
+						show = func(tag string) string {
+							return fmt.Sprintf("print \"%s\"; printf(\"%%v|\\n\", %d)", tag, arg)
+						}
+						res = func(tag, val string) string { return tag + "\n" + val + "|\n" }
+					}
+					head := "function other(a) { return a * 10 }\n"
+					if !builtin {
+						head += "function " + name + "(a) { return a + 1 }\n"
+					}
+					body := "print \"in\"; " + show("r") + "; print \"after\""
+					var funcs, begin string
+					persists := false // the binding outlives the construct
+					switch binder {
+					case "parameter":
+						funcs = "function g(" + name + ") { " + body + " }\n"
+						begin = "g(" + v.expr + ")"
+					case "second parameter":
+						funcs = "function g(a, " + name + ") { " + body + " }\n"
+						begin = "g(1, " + v.expr + ")"
+					case "parameter not passed":
+						if v.expr != "7" {
+							continue
+						}
+						funcs = "function g(a, " + name + ") { " + body + " }\n"
+						begin = "g(1)"
+					case "parameter, call in a loop":
+						funcs = "function g(" + name + ") { print \"in\"; for (i = 0; i < 2; i++) { " + show("r") + " }\n print \"after\" }\n"
+						begin = "g(" + v.expr + ")"
+					case "caller's parameter":
+						funcs = "function outer(" + name + ") { inner() }\nfunction inner() { " + body + " }\n"
+						begin = "outer(" + v.expr + ")"
+					case "nested shadow":
+						// the innermost binding wins: a parameter that holds the value, inside a caller whose parameter of the same name holds a string
+						funcs = "function outer(" + name + ") { g(" + v.expr + ") }\nfunction g(" + name + ") { " + body + " }\n"
+						begin = "outer(\"outer value\")"
+					case "match binding":
+						begin = "match (" + v.expr + ") { " + name + " => { " + body + " } }\n"
+					case "match binding in a function":
+						funcs = "function inner() { " + body + " }\nfunction g() { match (" + v.expr + ") { " + name + " => inner() }\n }\n"
+						begin = "g()"
+					case "for-in item":
+						begin = "for (" + name + " in [" + v.expr + "]) { " + body + " }"
+					case "for-in index":
+						if v.expr != "7" {
+							continue
+						}
+						begin = "for (it, " + name + " in [" + v.expr + "]) { " + body + " }"
+					case "global assignment":
+						if builtin {
+							continue
+						}
+						begin = name + " = " + v.expr + "; " + body
+						persists = true
+					}
+					prog := head + funcs + "BEGIN { " + show("start") + "\n " + begin + "\n " + show("out") + "\n}\nEND { " + show("end") + " }\n"
+					want, wantClass := res("start", orig)+"in\n", "ok"
+					if isFn {
+						want += res("r", bound)
+						if binder == "parameter, call in a loop" {
+							want += res("r", bound)
+						}
+						want += "after\n" + res("out", orig) + res("end", orig)
+					} else {
+						wantClass = "runtime"
+						if name == "printf" {
+							want += "r\n" // printed by the statement before the call
+						}
+					}
+					_ = persists
+					wc, wo := wantClass, want
+					emit(Case{Req: RunReq(prog, nil, c11Input, false), Fields: c11Fields,
+						NonTrivial: func(i Resp) bool { return i["class"] == "runtime" || i["class"] == "ok" },
+						Meta:       metaProg(prog, "name", name, "bound by", binder, "bound to", v.what+" "+v.expr, "row", binder, "col", v.what),
+						Oracle: func(i Resp) string {
+							if i["class"] != wc || string(i.Bytes("out")) != wo {
+								return fmt.Sprintf("C11: the name %s is bound (%s) to the %s %s when it is called: expected class %s and output %q, got class %s and output %q", name, binder, v.what, v.expr, wc, wo, i["class"], i.Bytes("out"))
+							}
+							return ""
+						}})
+				}
+			}
+		}
+	}
+}
+
+func init() {
+	register(Family{Name: "regex-site-sequence", Prop: "C11",
+		Rule: "ONE `~` / `!~` site whose right operand is not a literal (12 carriers: parameter, parameter of a nested call, for-in variable, array element, variable, object member, match binding, recursion, if-condition, element chosen per record, member of `$`, rule pattern over `$` members) evaluated 2-6 times with a sequence of patterns, regex values and strings mixed: valid ones (18 patterns x 9 subjects), then in 8 of 10 cases a faulty one -- an invalid pattern of c11RegexPatterns or a value that is not a pattern (number, null, array, object, boolean) -- at the 2nd or a later evaluation (6/10), the first (1/10) or the last (1/10), then further valid / faulty ones. Oracle: Go's regexp per pattern: the results before the first faulty evaluation are printed, each from its own pattern and subject, then class runtime and nothing more; no faulty one: the run completes. Compared with the model (class, out, line, col, src). Matrix: position of the first fault x carrier.",
+		Gen:  c11GenRegexSite})
+	register(Family{Name: "call-shadowed-name", Prop: "C11",
+		Rule: "7 names (4 program functions, the builtins num / json / printf) x 11 ways of binding the name to something else while it is called (parameter, second parameter, parameter that is not passed, parameter with the call in a loop, a CALLER's parameter (dynamic scope), an inner parameter over a caller's parameter of the same name, match binding, match binding seen from a called function, for-in item, for-in index, assignment to the global) x 11 values (number, 0, string, null, array, object, boolean, regex: the call is a runtime error there; through a match binding also another program function and the builtins num / json: that one is called). The program calls the name before the binding, inside it and after its scope (and in END). Oracle: exact class and output; compared with the model (dynamic-chain resolution).",
+		Gen:  c11GenCallShadowed})
 }
